@@ -5,23 +5,25 @@ import subprocess
 import sys
 
 ROOT = os.path.dirname(os.path.dirname(os.path.abspath(__file__)))
+REPO = os.environ.get("VERIF_REPO") or "/repo"
+BUILD = os.environ.get("VERIF_BUILD") or os.path.join(ROOT, "build")
 
 
 def targets_for(entry):
     t = []
     for u in entry["units"]:
         if u["kind"] == "rc":
-            t.append("build/bin/" + u["bin"])
+            t.append(BUILD + "/bin/" + u["bin"])
         elif u["kind"] == "fuzz":
-            t.append("build/bin/fuzz_" + u["target"])
+            t.append(BUILD + "/bin/fuzz_" + u["target"])
         elif u["kind"] == "py":
-            t += ["build/bin/" + n for n in u.get("needs", ["CMacIonize"])]
+            t += [BUILD + "/bin/" + n for n in u.get("needs", ["CMacIonize"])]
     return t
 
 
 def make(targets, jobs=16):
-    os.makedirs(os.path.join(ROOT, "build"), exist_ok=True)
-    lock = open(os.path.join(ROOT, "build", ".lock"), "w")
+    os.makedirs(BUILD, exist_ok=True)
+    lock = open(os.path.join(BUILD, ".lock"), "w")
     fcntl.flock(lock, fcntl.LOCK_EX)
     try:
         p = subprocess.run([sys.executable, os.path.join(ROOT, "lib", "gen_headers.py")],
@@ -30,7 +32,7 @@ def make(targets, jobs=16):
             return False, p.stdout
         if not targets:
             return True, ""
-        p = subprocess.run(["make", "-C", ROOT, "-j%d" % jobs, "-k"] + list(targets),
+        p = subprocess.run(["make", "-C", ROOT, "-j%d" % jobs, "-k", "REPO=" + REPO, "B=" + BUILD] + list(targets),
                            stdout=subprocess.PIPE, stderr=subprocess.STDOUT, text=True)
         return p.returncode == 0, p.stdout
     finally:
